@@ -838,11 +838,19 @@ struct EnvelopeM { method: String, parameters: P, trace_id: u32 }
 #[derive(Debug, Deserialize, Serialize, PartialEq, Clone)]
 #[serde(deny_unknown_fields)]
 struct StrictM { method: String }
+#[derive(Debug, Clone, PartialEq, Serialize, Deserialize)]
+#[serde(untagged)]
+enum UntaggedM { B(EnvelopeM), Other { other: u32 } }
 fn run_call(m: u8, x: u32, flags: [Option<bool>; 3], order: u64) -> Option<String> {
     match m {
         0..=3 => run_call_t(call_method(m, x), flags, order),
         4 => run_call_t(PlainM { id: x, name: format!("n{x}") }, flags, order),
         5 => run_call_t(EnvelopeM { method: "a.B".into(), parameters: P { a: x }, trace_id: x ^ 7 }, flags, order),
+        // method types that read their members ENTRY by entry (MapAccess::next_entry*: maps, serde_json::Value, and - through
+        // serde's buffering - untagged / internally tagged enums) instead of key by key
+        7 => { let mut mm = std::collections::BTreeMap::new(); mm.insert("method".to_string(), json!("a.B")); mm.insert("parameters".to_string(), json!({"a": x})); run_call_t(mm, flags, order) }
+        8 => run_call_t(json!({"method": "a.B", "parameters": {"a": x}, "zz": x}), flags, order),
+        9 => run_call_t(UntaggedM::B(EnvelopeM { method: "a.B".into(), parameters: P { a: x }, trace_id: x }), flags, order),
         _ => {
             // a strict method type must SEE (and so refuse) a member that is neither its own nor a flag
             if let Some(w) = run_call_t(StrictM { method: "a.C".into() }, flags, order) { return Some(w); }
@@ -858,7 +866,7 @@ fn search_call(seed: u64, budget: usize) -> Option<Value> {
     let mut rng = Rng(seed.wrapping_mul(0x9E3779B97F4A7C15) | 1);
     let f = |r: usize| match r { 0 => None, 1 => Some(false), _ => Some(true) };
     for _ in 0..budget {
-        let (m, x) = (rng.below(7) as u8, rng.below(1000) as u32);
+        let (m, x) = (rng.below(10) as u8, rng.below(1000) as u32);
         let flags = [f(rng.below(3)), f(rng.below(3)), f(rng.below(3))];
         let order = rng.next();
         if let Some(why) = run_call(m, x, flags, order) {
